@@ -8,8 +8,8 @@ def aerase {α β : Type} [DecidableEq α] : List (α × β) → α → List (α
   | [], _ => []
   | (k', v) :: t, k => if k' = k then aerase t k else (k', v) :: aerase t k
 
-/-- `_remove_feature`: the feature disappears from every per-feature attribute; a raw column whose
-    casting list becomes empty disappears from `features_casting` -/
+/-- `_remove_feature`: the feature disappears from every per-feature attribute; the raw column
+    whose casting list becomes empty by it disappears from `features_casting` -/
 def removeFeature (s : Disc) (f : String) : Disc :=
   if f ∉ s.features then s else
   { s with
@@ -19,7 +19,10 @@ def removeFeature (s : Disc) (f : String) : Disc :=
     orders := aerase s.orders f,
     lpv := aerase s.lpv f,
     featDropna := aerase s.featDropna f,
-    casting := (s.casting.map (fun c => (c.1, c.2.filter (· ≠ f)))).filter (fun c => !c.2.isEmpty) }
+    -- (only the casting list that holds `f` is edited; a raw column whose list was empty before - MulticlassCarver leaves
+    -- such entries for the features no class kept - stays)
+    casting := s.casting.filterMap (fun c =>
+      if f ∈ c.2 then (if (c.2.filter (· ≠ f)).isEmpty then none else some (c.1, c.2.filter (· ≠ f))) else some c) }
 
 def akeys {α β : Type} (l : List (α × β)) : List α := l.map (·.1)
 
